@@ -139,9 +139,26 @@ def run_chain(chk, spec):
 	if key2 not in book.column_names():
 		return
 	for how2 in spec["how2"]:
-		J.check_join(chk, chk.pid, "chain", how2, C, book, ["who"], [key2], key_mode=spec["key_mode2"], expect="many_to_many", label="second-stage", sig=("chain2", spec["how1"], how2, key2))
+		J.check_join(chk, chk.pid, "chain", how2, C, book, ["who"], [key2], key_mode=spec["key_mode2"], expect="many_to_many", label="second-stage", sig=("chain2", spec["how1"], how2, key2), strict=True)
 	# and the other way round: the earlier result on the left
-	J.check_join(chk, chk.pid, "chain", spec["how2"][0], book, C, [key2], ["who"], key_mode="name", expect="many_to_many", label="second-stage-left", sig=("chain3", spec["how1"], key2))
+	J.check_join(chk, chk.pid, "chain", spec["how2"][0], book, C, [key2], ["who"], key_mode="name", expect="many_to_many", label="second-stage-left", sig=("chain3", spec["how1"], key2), strict=True)
+
+
+def chain_cases(chk, count, how1s, how2s):
+	rng = chk.rng
+	for _ in range(count):
+		dom = rng.choice([[1, 2, 3, 4, None], [1, 2, 3, 4, None], [1, True, 0, False, 2, None], [True, False, 7, 9]])     # mixed int / bool columns: the surviving rows may all be bool
+
+		def keycol(n):
+			return [rng.choice(dom) for _ in range(n)]
+		na, nb, nc = rng.choice([1, 2, 3, 4]), rng.choice([1, 2, 3, 4]), rng.choice([1, 2, 3])
+		A = {"names": ["id", "lid"], "cols": [keycol(na), [f"A{i}" for i in range(na)]]}
+		B = {"names": ["cust", "rid"], "cols": [keycol(nb), [f"B{i}" for i in range(nb)]]}
+		C = {"names": ["who", "cid"], "cols": [keycol(nc), [f"C{i}" for i in range(nc)]]}
+		if all(x is None for x in A["cols"][0]) or all(x is None for x in B["cols"][0]) or all(x is None for x in C["cols"][0]):
+			continue
+		chk.case("chain", {"A": A, "B": B, "C": C, "how1": rng.choice(how1s), "how2": rng.sample(how2s, min(2, len(how2s))),
+			"key2": rng.choice(["id", "cust"]), "key_mode2": rng.choice(["name", "vector"])}, "chain")
 
 
 RUNNERS = {"join": run_join, "exhaustive": c09.run_exhaustive, "history": run_history, "relations": run_relations, "unmatched_order": run_unmatched_order, "chain": run_chain}
@@ -163,6 +180,7 @@ def run(chk):
 		for _ in range(300 if chk.quick() else 1500):
 			spec = common.gen_join_spec(rng, max_rows=rng.choice([4, 8, 12]) if chk.quick() else rng.choice([4, 8, 12, 40, 200]), how=how)
 			chk.case("join", spec, "sampled")
+		c09.ratio_cases(chk, how, 40 if chk.quick() else 300)
 		for _ in range(100 if chk.quick() else 500):
 			spec = c09.gen_history(rng, how)
 			spec["how"] = how
@@ -178,17 +196,7 @@ def run(chk):
 		if rng.random() < 0.3:
 			lk = lk + lk[:2]
 		chk.case("unmatched_order", {"lk": lk, "rk": rk, "how": "full", "key_mode": rng.choice(["name", "vector"])}, "unmatched-order")
-	for _ in range(150 if chk.quick() else 1000):
-		def keycol(n):
-			return [rng.choice([1, 2, 3, 4, None]) for _ in range(n)]
-		na, nb, nc = rng.choice([1, 2, 3, 4]), rng.choice([1, 2, 3, 4]), rng.choice([1, 2, 3])
-		A = {"names": ["id", "lid"], "cols": [keycol(na), [f"A{i}" for i in range(na)]]}
-		B = {"names": ["cust", "rid"], "cols": [keycol(nb), [f"B{i}" for i in range(nb)]]}
-		C = {"names": ["who", "cid"], "cols": [keycol(nc), [f"C{i}" for i in range(nc)]]}
-		if all(x is None for x in A["cols"][0]) or all(x is None for x in B["cols"][0]) or all(x is None for x in C["cols"][0]):
-			continue
-		chk.case("chain", {"A": A, "B": B, "C": C, "how1": rng.choice(["full", "full", "left", "inner"]), "how2": rng.sample(["left", "full", "inner"], 2),
-			"key2": rng.choice(["id", "cust"]), "key_mode2": rng.choice(["name", "vector"])}, "chain")
+	chain_cases(chk, 150 if chk.quick() else 1000, ["full", "full", "left", "inner"], ["left", "full", "inner"])
 	# relations: exhaustive small keys + sampled
 	idx = 0
 	for lk in c09.key_seqs():
@@ -200,5 +208,5 @@ def run(chk):
 				"right": {"names": ["r", "rid"], "cols": [list(rk), [f"R{i}" for i in range(len(rk))]]}, "lon": ["k"], "ron": ["r"]}
 			chk.case("relations", spec, "relations")
 	for _ in range(300 if chk.quick() else 1500):
-		spec = common.gen_join_spec(rng, max_rows=rng.choice([3, 6, 10]))
+		spec = common.gen_join_spec_named(rng, max_rows=rng.choice([3, 6, 10]))
 		chk.case("relations", spec, "relations")
